@@ -387,26 +387,60 @@ def pp_block(ss, ind, m, types):
     return out
 
 
+# spelling variants that do not change the meaning (chosen deterministically from the text): one-line bodies, `Wenn aber`
+# chains, type aliases for declared types; switched off where a second file would need the alias declarations
+_VARIANTS = True
+TYPE_ALIASES = {"Z": "Ganzzahl", "K": "Fliesszahl", "T": "Absatz", "W": "Schalter", ("L", "Z"): "Reihung", ("L", "T"): "Absatzfolge"}
+
+
+def _one_liner(block):
+    return len(block) == 1 and block[0][0] in ("assign", "compound", "print", "println", "break", "continue") and \
+        len(pp_stmt(block[0], 0, False, {})) == 1
+
+
+def decl_type_name(t, name):
+    """the declared type of a variable, sometimes spelled through a type alias (same gender as the type itself)"""
+    if _VARIANTS and t in TYPE_ALIASES and sum(ord(c) for c in name) % 3 == 0:
+        _USED_ALIASES.add(t)
+        return TYPE_ALIASES[t]
+    return type_name(t)
+
+
+_USED_ALIASES = set()
+
+
 def pp_stmt(s, ind, m, types):
     """returns the lines of one statement; `types` maps expression-id -> type for W-typed rhs"""
     t = "\t" * ind
     k = s[0]
     if k == "decl":
         if s[3][0] == "listrep":
-            return [t + "%s %s %s ist %s." % (art_nom(s[1]), type_name(s[1]), s[2], _pp(s[3], m))]
-        return [t + "%s %s %s ist %s." % (art_nom(s[1]), type_name(s[1]), s[2], pp_rhs(s[3], s[1], m))]
+            return [t + "%s %s %s ist %s." % (art_nom(s[1]), decl_type_name(s[1], s[2]), s[2], _pp(s[3], m))]
+        return [t + "%s %s %s ist %s." % (art_nom(s[1]), decl_type_name(s[1], s[2]), s[2], pp_rhs(s[3], s[1], m))]
     if k == "assign":
         return [t + "Speichere %s in %s." % (pp_rhs(s[2], None, m), pp_target(s[1], m))]
     if k == "compound":
         w, prep = COMPOUND[s[1]]
         return [t + "%s %s %s %s." % (w, pp_target(s[2], m), prep, pp_expr(s[3], m, P_XOR))]
     if k == "if":
-        lines = [t + "Wenn %s, dann:" % pp_expr(s[1], m, P_XOR)] + pp_block(s[2], ind + 1, m, types)
-        if s[3]:
-            lines += [t + "Sonst:"] + pp_block(s[3], ind + 1, m, types)
+        cond = pp_expr(s[1], m, P_XOR)
+        # a body of one simple statement may follow the comma directly (no `dann:`, no block)
+        if _VARIANTS and not s[3] and _one_liner(s[2]) and len(cond) % 3 == 0:
+            return [t + "Wenn %s, %s" % (cond, pp_stmt(s[2][0], 0, m, types)[0])]
+        lines = [t + "Wenn %s, dann:" % cond] + pp_block(s[2], ind + 1, m, types)
+        rest = s[3]
+        # an else branch that is a single `Wenn` again is spelled `Wenn aber …` at the same depth
+        while _VARIANTS and len(rest) == 1 and rest[0][0] == "if" and len(cond) % 2 == 0:
+            lines += [t + "Wenn aber %s, dann:" % pp_expr(rest[0][1], m, P_XOR)] + pp_block(rest[0][2], ind + 1, m, types)
+            rest = rest[0][3]
+        if rest:
+            lines += [t + "Sonst:"] + pp_block(rest, ind + 1, m, types)
         return lines
     if k == "while":
-        return [t + "Solange %s, mache:" % pp_expr(s[1], m, P_XOR)] + pp_block(s[2], ind + 1, m, types)
+        cond = pp_expr(s[1], m, P_XOR)
+        if _VARIANTS and _one_liner(s[2]) and len(cond) % 3 == 0:
+            return [t + "Solange %s, %s" % (cond, pp_stmt(s[2][0], 0, m, types)[0])]
+        return [t + "Solange %s, mache:" % cond] + pp_block(s[2], ind + 1, m, types)
     if k == "dowhile":
         return [t + "Mache:"] + pp_block(s[1], ind + 1, m, types) + [t + "Solange %s." % pp_expr(s[2], m, P_XOR)]
     if k == "repeat":
@@ -537,6 +571,15 @@ def pp_modules(p, minimal=False, lib="lib"):
     are public declarations of the imported module"""
     types = p.get("types", {})
     k = p.get("lib_count", 0)
+    global TYPE_ALIASES
+    saved, TYPE_ALIASES = TYPE_ALIASES, {}        # two files: no aliases (each file would need its own declarations)
+    try:
+        return _pp_modules(p, minimal, lib, types, k)
+    finally:
+        TYPE_ALIASES = saved
+
+
+def _pp_modules(p, minimal, lib, types, k):
     lines = ['Binde "Duden/Ausgabe" ein.', ""]
     for n, fs in p["structs"]:
         lines += _public(pp_struct(n, fs, minimal)) + [""]
@@ -555,17 +598,27 @@ def pp_modules(p, minimal=False, lib="lib"):
 
 def pp_program(p, minimal=False, types=None):
     types = types or p.get("types", {})
-    lines = ['Binde "Duden/Ausgabe" ein.', ""]
+    _USED_ALIASES.clear()
+    body = []
     for n, fs in p["structs"]:
-        lines += pp_struct(n, fs, minimal) + [""]
-    lines += pp_block(p["globals"], 0, minimal, types)
+        body += pp_struct(n, fs, minimal) + [""]
+    body += pp_block(p["globals"], 0, minimal, types)
+    lines = ['Binde "Duden/Ausgabe" ein.', ""]
+    tail = _pp_program_rest(p, minimal, types)
+    for t in sorted(_USED_ALIASES, key=str):
+        lines.append("Wir nennen %s %s auch %s %s." % (ein_akk(t), type_name(t), ein_akk(t), TYPE_ALIASES[t]))
+    return "\n".join(lines + body + tail) + "\n"
+
+
+def _pp_program_rest(p, minimal, types):
+    lines = []
     for f in p["funcs"]:
         lines += [""] + pp_func(f, minimal, types) + [""]
     for f in p["funcs"]:
         if f.get("forward") and f.get("generic") is None:
             lines += [""] + pp_func_definition(f, minimal, types) + [""]
     lines += pp_block(p["main"], 0, minimal, types)
-    return "\n".join(lines) + "\n"
+    return lines
 
 
 # ---------------------------------------------------------------- generator
@@ -960,7 +1013,10 @@ class Gen:
         t = t or self.pick_type()
         n = self.fresh("v")
         if is_list(t) and not is_struct(t[1]) and self.r.chance(0.15):
-            e = ("listrep", t[1], ("int", self.r.choice([0, 1, 2, 3])), self.leaf(t[1]))
+            cnt = ("int", self.r.choice([0, 1, 2, 3]))
+            if self.r.chance(0.25):
+                cnt = ("cast", cnt, "B")
+            e = ("listrep", t[1], cnt, self.leaf(t[1]))
         else:
             e = self.expr(t, d)
             if t == "V" and self.r.chance(0.6):
@@ -1045,7 +1101,11 @@ class Gen:
             n, t, _ = r.choice(vs)
             return self.dump(n, t) + [("println", ("text", []))]
         if c in (9, 10):
-            return [("if", self.expr("W", 2), self.block(r.below(3) + 1, d - 1), self.block(r.below(3), d - 1) if r.chance(0.5) else [])]
+            els = self.block(r.below(3), d - 1) if r.chance(0.5) else []
+            if r.chance(0.25):
+                # a chain: the else branch is one `Wenn` again (spelled `Wenn aber`), possibly with a last `Sonst`
+                els = [("if", self.expr("W", 1), self.block(r.below(2) + 1, d - 1), self.block(r.below(2), d - 1) if r.chance(0.5) else [])]
+            return [("if", self.expr("W", 2), self.block(r.below(3) + 1, d - 1), els)]
         if c == 11:
             # a bounded while loop: the counter is advanced first, so `continue` cannot starve it
             i = self.fresh("i")
@@ -1064,7 +1124,10 @@ class Gen:
             self.loop += 1
             body = self.block(r.below(3) + 1, d - 1)
             self.loop -= 1
-            return [("repeat", ("int", r.choice([0, 1, 2, 3])), body)]
+            cnt = ("int", r.choice([0, 1, 2, 3]))
+            if r.chance(0.25):
+                cnt = ("cast", cnt, "B")        # the count may be a Byte
+            return [("repeat", cnt, body)]
         if c in (13, 14):
             t = r.choice(["Z", "Z", "Z", "K", "B"]) if self.feat("for_types") else "Z"
             n = self.fresh("j")
